@@ -163,10 +163,15 @@ func vInject(ifi *config.Interface, sys *model.Sys, now func() time.Time) {
 		case *plugin.RDNSS:
 			p.Addrs = addrs
 		case *plugin.LLA:
+			// The hardware address reaches the plugin the way the daemon supplies
+			// it: Prepare with the interface as it is now, again on every
+			// (re)initialisation - with another address, or none, than before.
+			ni := &net.Interface{Index: 1, Name: ifi.Name}
 			if sys.MAC != nil {
-				p.Addr = net.HardwareAddr(append([]byte(nil), sys.MAC...))
-			} else {
-				p.Addr = nil
+				ni.HardwareAddr = net.HardwareAddr(append([]byte(nil), sys.MAC...))
+			}
+			if err := p.Prepare(ni); err != nil {
+				panic("verif: LLA.Prepare failed: " + err.Error())
 			}
 		}
 	}
